@@ -16,7 +16,7 @@ var c14PluginPkgs = []string{pkgMemQoS, pkgMemtd, pkgSgx}
 
 func checkC14(e *Engine, r *Report) {
 	r.Rules = []string{
-		"R4 nil-safety for repository-specific nil sources, over every function reachable from an NRI handler of the resource manager (incl. both policy backends) and of the memory-qos, memtierd and sgx-epc plugins: S1 first result of a comma-ok call/lookup/type-assertion used while ok is false or unchecked; S2 first result of a (value, error) call used on its error path; S3 optional sub-messages of NRI messages (raw field loads and results of nil-safe getters) dereferenced without a nil test on the same access path (fresh stores and `ensure…` helpers establish non-nil); S4 nilable plugin configuration; S5 elements of unmarshalled pointer collections; P parameters that callers may pass nil (UpdateContainer's resources) — inter-procedural through 2 levels of parameter summaries",
+		"R4 nil-safety for repository-specific nil sources, over every function reachable from an NRI handler of the resource manager (incl. both policy backends) and of the memory-qos, memtierd and sgx-epc plugins: S1 first result of a comma-ok call/lookup/type-assertion used while ok is false or unchecked; S2 first result of a (value, error) call used on its error path; S3 optional sub-messages of NRI messages (raw field loads and results of nil-safe getters) dereferenced without a nil test on the same access path (fresh stores and `ensure…` helpers establish non-nil); S4 nilable plugin configuration; S5 elements of unmarshalled pointer collections; P parameters that callers may pass nil (UpdateContainer's resources, and every pointer parameter some caller passes a literal nil for) — inter-procedural through 2 levels of parameter summaries; S9 local interface/pointer variables that are still nil (a phi with a nil-constant edge) dereferenced on a path from that edge on which every nil test of the variable says nil",
 		"S7 explicit process exits: every panic / log.Fatal / log.Panic / os.Exit / Must* call reachable from a handler is in the reviewed table",
 		"S6 (shared with C19) match expressions: for every operator under which Evaluate indexes Values[k], Validate rejects expressions with too few values, every Evaluate call site takes validated or internally built expressions, and an expression built in code gets as many values as its operator reads",
 	}
@@ -116,7 +116,10 @@ func checkC14(e *Engine, r *Report) {
 	// a literal nil passed for a pointer parameter of a repository function makes that parameter nilable (`takeCPUs(&set,
 	// nil, …)`): the callee must test it before dereferencing it
 	nLit := 0
-	for _, fn := range scope {
+	for _, fn := range e.RepoFuncs { // callers anywhere (set-up and reconfiguration paths pass nil too)
+		if t := TopParent(fn); t.Pkg != nil && (strings.Contains(t.Pkg.Pkg.Path(), "/mock") || strings.HasSuffix(t.Pkg.Pkg.Path(), "/testutils")) {
+			continue
+		}
 		AllInstrs(fn, func(in ssa.Instruction) {
 			ci, ok := in.(ssa.CallInstruction)
 			if !ok || ci.Common().IsInvoke() {
@@ -191,6 +194,9 @@ func checkC14(e *Engine, r *Report) {
 	for _, fn := range scope {
 		fs, n := c.checkFunction(fn)
 		examined += n
+		fs9, n9 := c.checkZeroLocals(fn)
+		fs = append(fs, fs9...)
+		examined += n9
 		r.touch(fn)
 		seen := map[string]bool{}
 		for _, f := range fs {
